@@ -84,3 +84,50 @@ claim("C34",
       "would panic; additionally a step that succeeds in signature mode has ModeSig in its mask. (c) Static/dynamic agreement: for every opcode with a check function or a dynamic size (constant blocks, push*, branches, callsub, switch, match, proto, frame ops...), "
       "on the same symbolic immediate bytes, checkStep and step advance the pc identically and every branch target execution takes was marked legal by the check; a non-branching step that executes also passes the check.",
       "Latest version table for (b),(c); 3 symbolic bytes after the opcode (thorough 6). Field-level gating (txn/global/asset_params_get field groups) is not covered. Back-branch alignment needs whole-program knowledge (instructionStarts) and is exempted in the single-step setting (explained in the harness).")
+
+claim("C37",
+      "Real Build/Prove/Verify/VerifyVectorCommitment (layer hashing, partial layers, sibling hints, index conversion and padding, worker goroutines sequentialised) with the hash an injective uninterpreted function. "
+      "Completeness: every n in 1..6 (thorough 8) and every position tuple of size 1-2 (thorough 3, duplicates and any order): Prove succeeds, TreeDepth = ceil(log2 n), Verify nil. Soundness against an ARBITRARY proof: symbolic TreeDepth, "
+      "symbolic number of hints, hints of symbolic content and of sizes 0 / digest / 2x digest: Verify nil => position < n, element equals the array's element there, hints = depth; pairs of positions; vector-commitment position binding with arbitrary depth field. "
+      "Three genuine defects found by these harnesses (depth not checked, oversized left hint, empty left hint), confirmed natively with real SHA-512/256 and Sumhash, were REPAIRED by a 'fix:' commit in /repo; the check now passes on the repaired tree.",
+      "n <= 4 for adversarial harnesses (thorough 5-6). Hash collision freedom idealised. See known_findings.json (status fixed) and findings/c37/ for the native reproduction.")
+
+claim("C36",
+      "Real GenerateOneTimeSignatureSecretsRNG, DeleteBeforeFineGrained, Sign, OneTimeSignatureVerifier.Verify and OneTimeIDForRound-style identifiers with ed25519 keygen/sign/verify replaced by an ideal signature scheme (injective functions of seed and message, verify by table): "
+      "for symbolic current and query identifiers after 0, 1 or 2 deletions a live id signs and verifies, a retired id yields the empty signature and never verifies; a signature is bound to its id and message; and a compromise model (adversary holding every remaining secret "
+      "and signature plus its own key, assembling Sig/PK/PK1Sig/PK2Sig by symbolic picks) cannot forge for any retired id while it can for live ones. Batch/offset index arithmetic never panics. Encoding lemmas check the real msgp ToBeHashed encodings are injective and domain separated.",
+      "Quick: 2 batches, dilution 1-2; thorough: 3 batches, dilution <= 4. Assumes id.Offset < dilution, id.Batch != 2^64-1 (otherwise Batch+1 wraps: unreachable for real rounds), no wrap of start+batches. Memory erasure and key persistence are outside.")
+
+claim("C43",
+      "LimitedReaderSlurper.Read/Reset/Size/Bytes against a nondeterministic io.Reader (any n in 0..len(p), any contents, nil/EOF/other error) with symbolic base/max allocation and 64-bit limit, up to 4 reads (thorough 6), also two consecutive messages and real 64 KiB allocation steps: "
+      "total capacity never exceeds the maximum, no allocation or read after the limit was exceeded, exactly one probe byte when the budget is used up; the result is an exact function of the reader's answers (ErrIncomingMsgTooLarge iff delivered count exceeds a non-zero limit or the probe finds a byte; "
+      "nil iff EOF otherwise), Size() and Bytes() reproduce the stream. messageFilter.CheckDigest: BMC from the empty filter over 3 distinct symbolic digests, 2-3 buckets of size 1-2 (thorough 3), 5-6 calls: every answer equals a counter reference model; a digest stays reported while fewer than (buckets-1)*size insertions followed it; never-added digests are never reported.",
+      "wsPeer.readLoop wiring, websocket framing and the keyed hash (CheckIncomingMessage) are outside; crypto.RandBytes stubbed.")
+
+claim("C42",
+      "Stateless layer: for generated msgpack votes (all 64 field-presence masks, every byte of every binary field symbolic, each uint in any msgpack width) CompressVote succeeds, output equals the documented packed layout, size <= MaxCompressedVoteSize, DecompressVote reproduces the input byte for byte; "
+      "arbitrary packed input (partitioned by mask, marker class, length) is accepted iff well-formed and exactly sized, never panics, and recompresses to itself up to the ignored header bits; short inputs error. Stateful layer: one inductive step from EQUAL encoder/decoder states "
+      "(arbitrary LRU buckets and MRU bits, arbitrary lastRnd, arbitrary proposal window): Decompress(Compress(x)) == x and the two states are equal again; arbitrary stateful references are accepted iff valid and denote the receiver-state values.",
+      "Votes are built by a reference encoder in the harness (canonical domain). Table size 16 (the minimum) only; sparse symbolic bytes in the stateful harnesses (first/last byte of each field plus hash-selecting bytes). network/msgCompressor.go wiring is outside.")
+
+claim("C22",
+      "apply.AssetTransfer / AssetConfig / AssetFreeze (takeOut, putIn, getParams) against a small Balances model (3 accounts, thorough 4, one asset; amounts and totals full 64-bit symbolic), one transaction from an arbitrary state satisfying sum(holdings) == Total: "
+      "after every accepted transaction the sum is unchanged (or the asset is destroyed); non-zero movement out of / into a frozen holding only with clawback authority (and the code's documented close-to-creator exception); both parties must hold the slot; sufficient balance; "
+      "close-out rules and AssetClosingAmount; destroy only if the creator holds the entire supply; create/reconfigure/freeze post-states exact.",
+      "Pre-state invariant assumed (sum == Total while the asset exists, creator holds a slot, counters < 2^40). cow_creatables bookkeeping and inner-transaction entry are outside.")
+
+claim("C23",
+      "roundCowState.NewBox/SetBox/DelBox/GetBox over a nondeterministic parent (box present with arbitrary value or absent), symbolic name/value (<= 2 bytes quick, 4 thorough), single operations and sequences of 2-3: TotalBoxes/TotalBoxBytes change by exactly +-1 / +-(len(name)+len(value)) "
+      "on create/delete, not at all on replace or rejection; double create and missing delete rejected; GetBox agrees with a ghost. setKey/delKey + storageDelta counts: after every accepted operation the recorded uint/byteslice counts equal exact ghost counts and stay within the schema; rejections have a stated reason.",
+      "Assumes counters < 2^62, schema limits <= 2^16, pre-state counts within limits. AVM box opcodes' own checks are outside.")
+
+claim("C11",
+      "txTail.newBlock/checkDup/committedUpTo: BMC from the empty tail over 2 rounds (thorough 3), one symbolic candidate transaction per round (txid byte, first/last valid, sender of 2, lease zero or fixed) included only if accepted, StateDelta built as addTx builds it, then an arbitrary query: "
+      "verdicts compared both ways with a ghost list (TransactionInLedgerError iff committed and still in its window, LeaseInLedgerError iff an unexpired (sender, lease) exists, nil otherwise), under FixTransactionLeases and (thorough) the legacy rule; pruning never drops a live entry. "
+      "roundCowState/roundCowBase.checkDup: duplicates and active leases inside one block (also via child cows committed to the parent) are caught without consulting the ledger, otherwise the ledger is asked exactly once with the block round and its verdict returned unchanged.",
+      "MaxTxnLife 2 (thorough symbolic 1..4); loadFromDisk / restarts are outside; tail.Encode stubbed.")
+
+claim("C12",
+      "AccountTotals.AddAccount/DelAccount/ApplyRewards/All/Participating/RewardUnits and AccountData.Money/WithUpdatedRewards at full 64-bit width, layered: RewardUnits == exact quotient; Money/WithUpdatedRewards == algos + q*(level-base); then one inductive step over 2 (thorough 3) arbitrary accounts: "
+      "if totals equal the exact per-status sums then after DelAccount(old)+AddAccount(new) and after ApplyRewards(L -> L') they do again whenever the overflow tracker is clean; overflow is flagged only when a true sum exceeds 2^64.",
+      "Two instances of the distributive law are assumed (not decidable by the solvers in this encoding) and checked on an exhaustive {0,1,2}^k grid (VerifC12HintsGrid). Assumes unit >= 1, RewardsBase <= level, money < 2^64. That the trackers apply exactly these steps per modified account is outside.")
